@@ -27,6 +27,7 @@ def pick_scalar(rng, exact: bool, divide: bool = False):
 
 class C06(Hist1Prop):
     ID = "C06"
+    GEN_TIE = ["statistics"]     # definitions regenerated from physt/statistics.py (harness/gen_tie.py)
     N_QUICK = 300
     N_THOROUGH = 8000
     RULE = ("1-D histograms (from data with weights, or from bare contents with custom errors and missed values, int and float "
